@@ -68,12 +68,27 @@ pub fn materialize(base: &Path, tree: &[Node]) {
             "s" => {
                 let _ = std::os::unix::net::UnixListener::bind(&p);
             }
+            _ if n.extra.get("hl").and_then(|h| h.as_u64()).unwrap_or(0) > 0 => {
+                let other = base.join(node_path(tree, n.extra["hl"].as_u64().unwrap() as usize));
+                std::fs::hard_link(&other, &p).unwrap_or_else(|e| panic!("link {:?}: {}", p, e));
+            }
             _ => {
                 let size = n.extra.get("size").and_then(|s| s.as_u64()).unwrap_or(0);
                 let f = std::fs::File::create(&p).unwrap_or_else(|e| panic!("create {:?}: {}", p, e));
                 if size > 0 {
                     f.set_len(size).unwrap();
                 }
+            }
+        }
+    }
+    // owners, then modes (chown clears set-id bits)
+    for (idx, n) in tree.iter().enumerate() {
+        let u = n.extra.get("uid").and_then(|x| x.as_u64()).unwrap_or(0);
+        let g = n.extra.get("gid").and_then(|x| x.as_u64()).unwrap_or(0);
+        if (u != 0 || g != 0) && n.kind != "l" {
+            let c = std::ffi::CString::new(base.join(node_path(tree, idx + 1)).as_os_str().as_bytes()).unwrap();
+            unsafe {
+                libc::chown(c.as_ptr(), u as u32, g as u32);
             }
         }
     }
